@@ -1,8 +1,249 @@
-/-! stub driver: answers "bad-op" to every line until the family's model is wired in -/
-partial def loop (h : IO.FS.Stream) : IO Unit := do
-  let line ← h.getLine
-  if line.isEmpty then return ()
-  IO.println "bad-op"
-  loop h
+import NbioVerif.Model.Pipeline
+import NbioVerif.Model.ClientFifo
+import NbioVerif.DrvCommon
+/-! pipedrv: predicts, from the request history of each connection, what the clients of harness `he2e`
+observe (C10).  Server side = `Pipeline` (run under the schedule given on the K line, then drained);
+nbhttp client side = `ClientFifo` on top of it.  Line protocol: see harness/cmd/he2e/main.go. -/
+open Pipeline
 
-def main : IO Unit := do loop (← IO.getStdin)
+structure Q where
+  rid : Nat
+  major : Nat
+  minor : Nat
+  conn : List (List UInt8)
+  method : String
+  st : Nat
+  sz : Nat
+  rb : Nat
+
+structure H where
+  cid : Nat
+  kind : String
+  sched : List Act
+  got : Nat
+  lost : List Nat
+  failAt : Nat
+  cut : Option Nat
+  qs : Array Q
+
+def hex16 (x : UInt64) : String :=
+  let rec go : Nat → Nat → List Char → List Char
+    | 0, _, acc => acc
+    | f + 1, n, acc => go f (n / 16) (Drv.hexDigit (n % 16) :: acc)
+  String.ofList (go 16 x.toNat [])
+
+/-- FNV-1a-64 of the tag repeated to `n` bytes, without building the body -/
+def fnvRepeat (tag : ByteArray) (n : Nat) : UInt64 := Id.run do
+  let mut h : UInt64 := 14695981039346656037
+  if tag.size == 0 then return h
+  for i in [0:n] do
+    h := (h ^^^ (tag.get! (i % tag.size)).toUInt64) * 1099511628211
+  return h
+
+/-- FNV-1a-64 of lp.Pattern(n, p) -/
+def fnvPattern (n p : Nat) : UInt64 := Id.run do
+  let mut h : UInt64 := 14695981039346656037
+  for i in [0:n] do
+    h := (h ^^^ (UInt8.ofNat ((i * 7 + p) % 256)).toUInt64) * 1099511628211
+  return h
+
+def bodyField (cid : Nat) (q : Q) : String :=
+  let n := if q.method == "HEAD" then 0 else q.sz
+  let tag := s!"[c{cid}r{q.rid}]".toUTF8
+  s!"{n}:{hex16 (fnvRepeat tag n)}"
+
+def rbField (q : Q) : String :=
+  let n := if q.method == "POST" then q.rb else 0
+  s!"{n}:{hex16 (fnvPattern n (q.rid % 256))}"
+
+def answeredLine (cid : Nat) (q : Q) (closed cb : String) : String :=
+  s!"R {q.rid} st={q.st} body={bodyField cid q} rb={rbField q} closed={closed} cb={cb}"
+
+/-- schedule letters of the K line.  `f` flushes the whole backlog before the job finishes: in the sampled
+    domain the kernel has taken a response before the next step of the job runs (a close that finds a
+    backlog is the known finding and comes in through `cut=`) -/
+def parseSched (s : String) : Option (List Act) :=
+  (s.toList.mapM fun c =>
+    match c with
+    | 'p' => some [Act.parse]
+    | 's' => some [Act.start]
+    | 'w' => some [Act.write none]
+    | 'h' => some [Act.write (some 0)]      -- short write: everything is queued
+    | 'l' => some [Act.flush 1]
+    | 'f' => some [Act.flush 1000000000, Act.finish]
+    | _ => none).map List.flatten
+
+def mkCfg (sync : Bool) (qs : List Q) : Cfg Nat :=
+  -- request k's response is two conn writes of one token each: 2k (head part) and 2k+1 (tail part)
+  { reqs := qs.mapIdx fun i q =>
+      { major := q.major, minor := q.minor, connVals := q.conn, pieces := [[2 * i], [2 * i + 1]] },
+    sync }
+
+/-- the server side of one connection under the schedule of the K line, then drained -/
+def serve (sync : Bool) (sched : List Act) (qs : List Q) : St Nat :=
+  drain (mkCfg sync qs) (6 * qs.length + 8) init sched
+
+/-- the schedule of the known finding "close drops the backlog": from response `i` on the kernel stops
+    taking bytes (the tail part of response i and everything behind it is queued); the job of the first
+    closing request finishes with the queue non-empty and the close releases it -/
+def serveCut (sync : Bool) (i : Nat) (qs : List Q) : St Nat :=
+  let n := qs.length
+  let job (k : Nat) : List Act :=
+    if k < i then [.start, .write none, .write none, .finish]
+    else if k == i then [.start, .write none, .write (some 0), .finish]
+    else [.start, .write none, .write none, .finish]
+  run (mkCfg sync qs) init (List.replicate n Act.parse ++ (List.range n).flatMap job)
+
+def answeredIn (s : St Nat) (i : Nat) : Bool := s.wire.contains (2 * i) && s.wire.contains (2 * i + 1)
+def partialIn (s : St Nat) (i : Nat) : Bool := s.wire.contains (2 * i) && !s.wire.contains (2 * i + 1)
+def answeredCount (s : St Nat) : Nat := s.wire.length / 2
+
+/-- split a history into the connections a reconnecting client (net/http, nbhttp.Client pool) uses:
+    a new connection after every request whose close decision is true -/
+def splitAtClose (qs : List Q) : List (List Q) :=
+  let rec go : List Q → List Q → List (List Q)
+    | [], cur => if cur.isEmpty then [] else [cur.reverse]
+    | q :: rest, cur =>
+      if closeDecision q.major q.minor q.conn then (q :: cur).reverse :: go rest []
+      else go rest (q :: cur)
+  go qs []
+
+def outcome (sync : Bool) (h : H) : List String :=
+  let qs := h.qs.toList
+  match h.kind with
+  | "raw" =>
+    let s := match h.cut with
+      | some i => serveCut sync i qs
+      | none => serve sync h.sched qs
+    qs.mapIdx fun i q =>
+      if answeredIn s i then
+        answeredLine h.cid q (if 2 * (i + 1) == s.wire.length && s.closed then "1" else "0") "x"
+      else if partialIn s i && s.dropped then s!"R {q.rid} bad=truncated cb=x"
+      else s!"R {q.rid} none cb=x"
+  | "nbc" =>
+    let s := serve sync h.sched qs
+    let m := answeredCount s
+    -- the client: n pipelined Do, the responses its parser delivered (environment input `got`, at most
+    -- what the server sent), then the close (server's or the harness's ClientConn.Close)
+    let got := min h.got m
+    let ops : List ClientFifo.Op :=
+      qs.map (fun _ => ClientFifo.Op.do_ true true) ++ (List.replicate got (ClientFifo.Op.onResponse 0 false)) ++ [.closeAll]
+    let c := ClientFifo.run {} ops
+    qs.mapIdx fun i q =>
+      let cnt := ClientFifo.count c i
+      if c.calls.contains (i, ClientFifo.Out.resp (some i)) && answeredIn s i then
+        answeredLine h.cid q "x" (toString cnt)
+      else s!"R {q.rid} none cb={cnt}"
+  | "nbx" =>
+    -- forced client schedule: requests < failAt are written to connection 0 and answered, but their response
+    -- job is held; the write of request failAt fails (connection 0 dropped); the rest goes to connection 1;
+    -- then connection 0's stale responses and its end arrive, then connection 1's responses
+    let k := min h.failAt qs.length
+    let rest := qs.drop (k + 1)
+    let s := serve sync h.sched rest
+    let m := min h.got (answeredCount s)
+    let ops : List ClientFifo.Op :=
+      List.replicate k (ClientFifo.Op.do_ true true) ++ (if k < qs.length then [ClientFifo.Op.do_ true false] else []) ++
+      List.replicate rest.length (ClientFifo.Op.do_ true true) ++
+      List.replicate k (ClientFifo.Op.onResponse 0 false) ++ [ClientFifo.Op.connClosed 0] ++
+      List.replicate m (ClientFifo.Op.onResponse 1 false) ++ [ClientFifo.Op.closeAll]
+    let c := ClientFifo.run {} ops
+    qs.mapIdx fun i q =>
+      let cnt := ClientFifo.count c i
+      if c.calls.contains (i, ClientFifo.Out.resp (some i)) then answeredLine h.cid q "x" (toString cnt)
+      else s!"R {q.rid} none cb={cnt}"
+  | "std" | "nbcli" =>
+    let cb := if h.kind == "nbcli" then "1" else "x"
+    (splitAtClose qs).flatMap fun seg =>
+      let s := serve sync h.sched seg
+      seg.mapIdx fun i q =>
+        -- pool client: one exchange per Do; a callback that got an error is an environment input (`lost=`)
+        if answeredIn s i && !h.lost.contains q.rid then answeredLine h.cid q "x" cb
+        else s!"R {q.rid} none cb={cb}"
+  | _ => qs.map fun _ => "bad-op"
+
+def parseVer (v : String) : Option (Nat × Nat) :=
+  match v with
+  | "11" => some (1, 1)
+  | "10" => some (1, 0)
+  | _ => none
+
+def parseConn (c : String) : List (List UInt8) :=
+  if c == "-" then [] else (c.splitOn "|").map Drv.unhex
+
+def parseQ (ws : List String) : Option Q := do
+  let rid ← (ws[2]?).bind String.toNat?
+  let (major, minor) ← (Drv.field ws "v").bind parseVer
+  let conn ← (Drv.field ws "c").map parseConn
+  let method ← Drv.field ws "m"
+  let st ← (Drv.field ws "st").bind String.toNat?
+  let sz ← (Drv.field ws "sz").bind String.toNat?
+  let rb ← (Drv.field ws "rb").bind String.toNat?
+  if method != "GET" && method != "POST" && method != "HEAD" then none
+  else some { rid, major, minor, conn, method, st, sz, rb }
+
+structure DS where
+  iomod : String := ""
+  cur : Option H := none
+
+def flush (s : DS) : IO DS := do
+  match s.cur with
+  | none => pure s
+  | some h =>
+    let sync := s.iomod == "bl" || (s.iomod == "mx" && h.cid % 2 == 0)
+    for l in outcome sync h do IO.println l
+    pure { s with cur := none }
+
+partial def loop (h : IO.FS.Stream) (s : DS) : IO Unit := do
+  let line ← h.getLine
+  if line.isEmpty then
+    let _ ← flush s
+    return ()
+  let ws := (line.trimAscii.toString.splitOn " ").filter (· ≠ "")
+  match ws with
+  | "C" :: iomod :: tls :: ep :: _ =>
+    let s ← flush s
+    if (iomod == "nb" || iomod == "bl" || iomod == "mx") && (tls == "0" || tls == "1") &&
+        ["lt", "et", "os", "eta", "osa"].contains ep then
+      IO.println "ok"
+      loop h { s with iomod }
+    else
+      IO.println "bad-op"
+      loop h s
+  | "K" :: cid :: kind :: _ =>
+    let s ← flush s
+    match cid.toNat?, (Drv.field ws "sched").bind parseSched with
+    | some cid, some sched =>
+      if ["raw", "std", "nbc", "nbcli", "nbx"].contains kind && s.iomod != "" then
+        let got := ((Drv.field ws "got").bind String.toNat?).getD 0
+        let lost := (((Drv.field ws "lost").getD "").splitOn ",").filterMap String.toNat?
+        let failAt := ((Drv.field ws "fail").bind String.toNat?).getD 0
+        let cut := (Drv.field ws "cut").bind String.toNat?
+        IO.println "ok"
+        loop h { s with cur := some { cid, kind, sched, got, lost, failAt, cut, qs := #[] } }
+      else
+        IO.println "bad-op"
+        loop h s
+    | _, _ =>
+      IO.println "bad-op"
+      loop h s
+  | "Q" :: cid :: _ =>
+    match s.cur, parseQ ws with
+    | some hh, some q =>
+      if cid.toNat? == some hh.cid then loop h { s with cur := some { hh with qs := hh.qs.push q } }
+      else
+        -- a request of another connection than the current history: the protocol groups them
+        let s ← flush s
+        IO.println "bad-op"
+        loop h s
+    | _, _ =>
+      let s ← flush s
+      IO.println "bad-op"
+      loop h s
+  | [] => loop h s
+  | _ =>
+    let s ← flush s
+    IO.println "bad-op"
+    loop h s
+
+def main : IO Unit := do loop (← IO.getStdin) {}
